@@ -219,7 +219,7 @@ def gen_tables():
     # --- write modes
     wsrc = read("write.py")
     wtree = ast.parse(wsrc)
-    wfn = find_func(wtree, "write")
+    wfn = wtree   # the mode lists are looked up anywhere in write.py (write or a helper it delegates to)
     for lean_name, py_name in [("writeModes", "writemode"), ("overwriteModes", "overwritemode"),
                                ("appendModes", "appendmode"), ("appendOverModes", "appendovermode")]:
         try:
